@@ -208,8 +208,11 @@ func (h *handler) OnClose(c gnet.Conn, err error) (action gnet.Action) {
 		w.closedN++
 		w.countChanged()
 		w.logf("conn %d (udp client) OnClose err=%v", cs.idx, err != nil)
-		if err != nil && !w.k.FdFaulted(cs.fd) && !w.peers[cs.idx].udpEmpty {
+		if err != nil && !w.k.FdFaulted(cs.fd) && !w.peers[cs.idx].udpEmpty && !w.peers[cs.idx].udpUnreach {
 			w.violate("C04", "close-error-without-cause", "conn %d (udp client): OnClose reported %v but no I/O cause existed", cs.idx, err)
+		}
+		if err == nil && !cs.localReq && !w.stopRequested && !w.stopEverAsked {
+			w.violate("C04", "close-nil-without-local-cause", "conn %d (udp client): OnClose reported a nil error but no local close had been requested (ICMP error pending on the socket: %v)", cs.idx, w.peers[cs.idx].udpUnreach)
 		}
 		return gnet.Action(cs.cp.CloseAct)
 	}
